@@ -20,6 +20,7 @@ typedef struct {
    uint32_t et, ef, er;          /* encoder tell, tell_frac, rng after the call */
    uint32_t v, u0, u1;           /* decoder: returned value, interval used for ec_dec_update */
    uint32_t dt, df, dr;          /* decoder tell, tell_frac, rng after the call */
+   int pe0, pe1;                 /* patch: encoder error flag before / after the call */
 } op_t;
 
 /* ---- tables ---- */
@@ -104,7 +105,7 @@ static void emit_tabs(void) {
 static op_t g_ops[MAXOPS + 8];
 typedef struct {
    /* measurements (coverage evidence only) */
-   unsigned mext; int pfd, crun, runs, first_err_op, npatch_err, shrink_moved, term_eq;
+   unsigned mext; int pfd, crun, runs, first_err_op, npatch_err, shrink_moved, term_eq, early_ok, early_ref;
 } meas_t;
 
 static void apply_enc(ec_enc *enc, const op_t *o) {
@@ -165,7 +166,11 @@ static void run_exec(next_fn next, void *ctx, int size0, int fill, int fit, meas
          if (enc.end_offs > 0 && o.a0 < enc.storage) M->shrink_moved++;
       }
       if (o.k == K_PATCH && enc.offs == 0 && enc.rem < 0 && enc.ext > 0) M->pfd = 1;
-      apply_enc(&enc, &o);
+      { int early = o.k == K_PATCH && enc.offs == 0 && enc.rem < 0 && enc.ext == 0 && !enc.error;
+        o.pe0 = enc.error ? 1 : 0;
+        apply_enc(&enc, &o);
+        o.pe1 = enc.error ? 1 : 0;
+        if (early) { if (enc.error) M->early_ref++; else M->early_ok++; } }
       if (fit && o.k != K_SHRINK && o.k != K_PATCH && ec_tell(&enc) > 8 * (int)enc.storage) {
          enc = save; memcpy(B.p, snap, size0); break;      /* would bust: stop this list here */
       }
@@ -220,12 +225,12 @@ static void run_exec(next_fn next, void *ctx, int size0, int fill, int fit, meas
    js_arr_b("b", B.p, (int)enc.storage);
    printf(",\"err\":%d,\"e0\":%d,\"tb\":%d,\"derr\":%d", enc.error ? 1 : 0, e0 ? 1 : 0, tb, dec.error ? 1 : 0);
    printf(",\"pt\":[");
-   { int first = 1; for (i = 0; i < n; i++) if (g_ops[i].k == K_PATCH) { printf(first ? "[%u,%u]" : ",[%u,%u]", g_ops[i].a0, g_ops[i].a1); first = 0; } }
+   { int first = 1, nc = 0; for (i = 0; i < n; i++) { if (g_ops[i].k == K_PATCH) { printf(first ? "[%u,%u,%d]" : ",[%u,%u,%d]", g_ops[i].a0, g_ops[i].a1, nc); first = 0; } else if (g_ops[i].k != K_SHRINK) nc++; } }
    printf("]");
    quad("et", et0, ef0, er0); quad("dt", dt0, df0, dr0);
    printf(",\"can\":%d,\"tdiff\":%d,\"dmod\":%d", hx_buf_ok(&B), tdiff, dmod);
-   printf(",\"nops\":%d,\"offs\":%u,\"eoffs\":%u,\"mext\":%u,\"pfd\":%d,\"crun\":%d,\"runs\":%d,\"ferr\":%d,\"perr\":%d,\"smov\":%d,\"teq\":%d}\n",
-          n, enc.offs, enc.end_offs, M->mext, M->pfd, M->crun, M->runs, M->first_err_op, M->npatch_err, M->shrink_moved, M->term_eq);
+   printf(",\"nops\":%d,\"offs\":%u,\"eoffs\":%u,\"mext\":%u,\"pfd\":%d,\"crun\":%d,\"runs\":%d,\"ferr\":%d,\"perr\":%d,\"smov\":%d,\"teq\":%d,\"pval\":%d,\"pref\":%d}\n",
+          n, enc.offs, enc.end_offs, M->mext, M->pfd, M->crun, M->runs, M->first_err_op, M->npatch_err, M->shrink_moved, M->term_eq, M->early_ok, M->early_ref);
    for (i = 0; i < n; i++) {
       op_t *o = &g_ops[i];
       printf("{\"k\":\"op\",\"o\":\"%s\"", (o->k == K_ICDF && tabs[o->tab].p16) ? "icdf16" : kname[o->k]);
@@ -237,6 +242,7 @@ static void run_exec(next_fn next, void *ctx, int size0, int fill, int fit, meas
       case K_SHRINK: printf(",\"a\":[%u]", o->a0); break;
       }
       quad("e", o->et, o->ef, o->er);
+      if (o->k == K_PATCH) printf(",\"pe\":[%d,%d]", o->pe0, o->pe1);
       if (o->k != K_PATCH && o->k != K_SHRINK) {
          if (o->k == K_UINT) printf(",\"v\":[%u,%u]", o->v >> 16, o->v & 0xFFFF); else printf(",\"v\":%u", o->v);
          if (o->k == K_ENC || o->k == K_BIN) printf(",\"u\":[%u,%u]", o->u0, o->u1);
@@ -253,6 +259,7 @@ typedef struct {
    hx_rng *r; int target, mode, size0, fit, pad_exact, padding, nplace, placed_bits, patch_at, patch_done, malformed_patch;
    int w[8];
    int term_phase, term_pre, term_over, term_size;   /* mode 6: termination boundary */
+   int ep_bits, ep_n, ep_done, ep_inexact;           /* mode 7: patch before any renormalisation */
 } rctx_t;
 
 static uint32_t rnd_logu(hx_rng *r, int maxbits) {   /* log-uniform in 1..2^maxbits-1 (or up to 2^32-1) */
@@ -417,11 +424,34 @@ static int next_term(void *vc, ec_enc *enc, int i, op_t *o) {
    }
 }
 
+/* ---- mode 7: ec_enc_patch_initial_bits before any renormalisation -----------------------------------------
+   0..7 bits of exact power-of-two symbols (or one inexact symbol) are coded, then a patch of every width 1..8 is
+   issued (it must be refused when fewer bits than its width have been coded, else the leading symbols decode to
+   the patched bits), then coding goes on. */
+static int next_early(void *vc, ec_enc *enc, int i, op_t *o) {
+   rctx_t *c = (rctx_t *)vc; hx_rng *r = c->r;
+   (void)enc;
+   if (c->ep_inexact == 1) { c->ep_inexact = 2; o->k = K_ENC; o->a2 = 3 + hx_u(r, 60); if ((o->a2 & (o->a2 - 1)) == 0) o->a2++; o->a0 = hx_u(r, o->a2); o->a1 = o->a0 + 1; return 1; }
+   if (c->placed_bits < c->ep_bits) {
+      int left = c->ep_bits - c->placed_bits, kbits = hx_u(r, 2) ? 1 : hx_range(r, 1, left);
+      if (kbits == 1 && hx_u(r, 2)) { o->k = K_LOGP; o->a1 = 1; o->a0 = hx_u(r, 2); }
+      else if (hx_u(r, 2)) { o->k = K_BIN; o->a2 = kbits; o->a0 = hx_u(r, 1u << kbits); o->a1 = o->a0 + 1; }
+      else { int m = hx_range(r, kbits, 12), sh = m - kbits; o->k = K_ENC; o->a2 = 1u << m; o->a0 = hx_u(r, 1u << kbits) << sh; o->a1 = o->a0 + (1u << sh); }
+      c->placed_bits += kbits;
+      return 1;
+   }
+   if (!c->ep_done) { c->ep_done = 1; o->k = K_PATCH; o->a1 = c->ep_n; o->a0 = hx_u(r, 1u << c->ep_n); return 1; }
+   if (i >= c->target) return 0;
+   if (hx_u(r, 3)) { o->k = K_LOGP; o->a1 = 1; o->a0 = hx_u(r, 2); return 1; }    /* more exact one-bit symbols */
+   gen_coding(c, o);
+   return 1;
+}
+
 static void one_random(hx_rng *r, int maxops) {
    rctx_t c; meas_t M; int i, fill;
    static const int fills[] = {0x00, 0xFF, 0xAA, 0x55};
    memset(&c, 0, sizeof c); c.r = r;
-   c.mode = hx_u(r, 7);             /* 0 mix, 1 raw heavy, 2 high symbols (carry chains), 3 patch, 4 tiny buffers, 5 mix, 6 termination boundary */
+   c.mode = hx_u(r, 8);             /* 7 early patch; 0 mix, 1 raw heavy, 2 high symbols (carry chains), 3 patch, 4 tiny buffers, 5 mix, 6 termination boundary */
    switch (hx_u(r, 10)) { case 0: case 1: case 2: case 3: c.target = hx_range(r, 1, 20); break;
                           case 4: case 5: case 6: case 7: c.target = hx_range(r, 20, 400); break;
                           default: c.target = hx_range(r, 400, 4000); }
@@ -443,6 +473,13 @@ static void one_random(hx_rng *r, int maxops) {
       if (hx_u(r, 2)) c.patch_at = hx_range(r, 1, 12);
    }
    fill = fills[hx_u(r, 4)];
+   if (c.mode == 7) {
+      c.nplace = 0; c.ep_bits = (int)hx_u(r, 8); c.ep_n = hx_range(r, 1, 8); c.ep_inexact = hx_u(r, 5) == 0;
+      if (hx_u(r, 3) == 0) c.ep_n = c.ep_bits > 0 && hx_u(r, 2) ? c.ep_bits : (c.ep_bits < 8 ? c.ep_bits + 1 : 8);   /* at the edge */
+      c.target = 4 + (int)hx_u(r, 40); if (c.size0 < 16) c.size0 = hx_range(r, 16, 200);
+      run_exec(next_early, &c, c.size0, fill, 0, &M, NULL, NULL, 0);
+      return;
+   }
    if (c.mode == 6) {
       c.nplace = 0; c.term_pre = (int)hx_u(r, 12); c.term_over = (int)hx_u(r, 2); c.w[K_BITS] = hx_u(r, 2) ? 0 : 1;
       if (c.size0 < 80) c.size0 = hx_range(r, 80, 400);
